@@ -320,7 +320,8 @@ func main() {
 	for _, c := range qcfgs {
 		scs = append(scs, queueScenario(c, pb))
 	}
-	explore.Main(run, scs, evid.Pick(run, 100*time.Second, 15*time.Minute))
+	scs = append(scs, swarmScenarios(run.Thorough(), evid.Pick(run, 1, 2))...)
+	explore.Main(run, scs, evid.Pick(run, 150*time.Second, 20*time.Minute))
 	run.Assume("scheduling points at every channel/lock/atomic/select operation; data races are decided separately by C14")
 	run.Set("preemption_bound", pb)
 	run.Finish()
